@@ -49,8 +49,11 @@ package shrex_getter
 
 // Row, square, namespace-data and range requests return the zero value when the request loop fails:
 // nothing a peer sent is handed back next to an error.
-// (binding of the request loop's ghost predicate: these callers discard their buffer on failure, so
-// "idle" is trivially true for them: assume $Idle)
+// Binding of the request loop's ghost predicate for these callers: every attempt decodes into the same
+// response value, and "idle" means that what a rejected attempt left in it cannot influence the next
+// one. That holds because each container's stream decoder determines every field from the stream alone
+// (Row, Sample, NamespaceData: the whole value is assigned; RangeNamespaceData: contract of ReadFrom in
+// share/shwap, which found and fixed a stale last-row proof) - hence: assume $Idle.
 //@ func (*Getter).GetRow
 //@   property C06
 //@   noframe
